@@ -150,15 +150,19 @@ func FloatAsSigned[S constraints.Float, D constraints.Signed](src *Buffer[S], ds
 	for i := 0; i < length; i++ {
 		var sample D
 		if f := float64(src.Sample(i)); f > 0 {
-			// detect overflow
-			if D(f) == 0 {
+			// clip before scaling: an out-of-range product would wrap
+			// when converted to a narrow integer.
+			if f < 1 {
 				sample = D(f * float64(msv))
 			} else {
 				sample = msv
 			}
 		} else {
-			// no overflow here
-			sample = D(f * (float64(msv) + 1))
+			if f > -1 {
+				sample = D(f * (float64(msv) + 1))
+			} else {
+				sample = D(dst.BitDepth().MinSignedValue())
+			}
 		}
 		dst.SetSample(i, sample)
 	}
@@ -183,15 +187,19 @@ func FloatAsUnsigned[S constraints.Float, D constraints.Unsigned](src *Buffer[S]
 	for i := 0; i < length; i++ {
 		var sample D
 		if f := float64(src.Sample(i)); f > 0 {
-			// detect overflow
-			if int64(f) == 0 {
+			// clip before scaling: an out-of-range product would wrap
+			// when converted to a narrow integer.
+			if f < 1 {
 				sample = D(f*float64(msv)) + offset
 			} else {
 				sample = msv + offset
 			}
 		} else {
-			// no overflow here
-			sample = D(f*(float64(msv)+1)) + offset
+			if f > -1 {
+				sample = D(f*(float64(msv)+1)) + offset
+			} else {
+				sample = 0
+			}
 		}
 		dst.SetSample(i, sample)
 	}
